@@ -79,7 +79,7 @@ def colour_tests(prog, body):
                 tr, fa = switch_edges_on_local(body, sbk)
                 if neg != (m.group(1) == "ne"):
                     tr, fa = fa, tr
-                out.append({"subject": subj, "colour": col, "true": set(tr), "false": set(fa), "blk": sbk})
+                out.append({"subject": subj, "colours": {col}, "true": set(tr), "false": set(fa), "blk": sbk})
     # match on the colour discriminant
     for (i, j, p, rv, line) in body.assigns():
         if rv[0] == "disc" and len(p) == 1 and "sndbuf::Color" in body.local_ty(rv[1][0]):
@@ -101,7 +101,28 @@ def colour_tests(prog, body):
                         others = set(x for c2, x in listed.items() if c2 != col)
                         if body.term(tt["else"])["t"] != "unreachable":
                             others.add(tt["else"])
-                        out.append({"subject": subj, "colour": col, "true": {tgt}, "false": others, "blk": sbk})
+                        out.append({"subject": subj, "colours": {col}, "true": {tgt}, "false": others, "blk": sbk})
+                    # `matches!(colour, A | B)`: every arm only sets one bool local to a constant, then the bool is branched on
+                    arms = dict(listed)
+                    if body.term(tt["else"])["t"] != "unreachable":
+                        arms["<else>"] = tt["else"]
+                    flag = {}
+                    for col, tgt in arms.items():
+                        for s_ in body.stmts(tgt):
+                            if s_[0] == "=" and len(s_[1]) == 1 and s_[2][0] == "use" and op_const(s_[2][1]) is not None and \
+                                    op_const(s_[2][1]).get("ty") == "bool":
+                                flag.setdefault(s_[1][0], {})[col] = const_int(s_[2][1]) == 1
+                    for loc, m in flag.items():
+                        if set(m) != set(arms):
+                            continue
+                        true_cols = set(c for c, v in m.items() if v and c != "<else>")
+                        if m.get("<else>"):
+                            true_cols |= set(COLOURS) - set(listed)
+                        for (sb2, neg) in bool_switches(body, loc):
+                            tr, fa = switch_edges_on_local(body, sb2)
+                            if neg:
+                                tr, fa = fa, tr
+                            out.append({"subject": subj, "colours": true_cols, "true": set(tr), "false": set(fa), "blk": sb2})
     return out
 
 
@@ -117,9 +138,9 @@ def colours_at(body, tests, blk, subject=None):
         via_true = blk in body.reachable_from(list(t["true"]), avoid={sb}) or blk in t["true"]
         via_false = blk in body.reachable_from(list(t["false"]), avoid={sb}) or blk in t["false"]
         if via_true and not via_false:
-            may &= {t["colour"]}
+            may &= t["colours"]
         elif via_false and not via_true:
-            may -= {t["colour"]}
+            may -= t["colours"]
     return may
 
 
